@@ -53,7 +53,7 @@ impl OptCfg {
 
 /// steps in [1, max_steps], inner so that 1..max_loops loops occur, including non-multiples and inner > steps
 pub fn steps_inner(max_steps: u64, max_loops: u64) -> BoxedStrategy<(u64, u64)> {
-    (1u64..=max_steps, 1u64..=max_loops, 0u64..4, any::<u16>())
+    (1u64..=max_steps, prop_oneof![3 => 1u64..=max_loops.min(12), 1 => 1u64..=max_loops], 0u64..4, any::<u16>())
         .prop_map(move |(steps, loops, mode, jitter)| {
             let base = (steps / loops).max(1);
             let inner = match mode {
